@@ -175,6 +175,24 @@ pub fn seq_op(a: SeqAlphabet) -> BoxedStrategy<Op> {
     if a.add_stream {
         v.push((4, s().prop_map(|rx| Op::AddStream { rx }).boxed()));
     }
+    // a burst of handle or stream churn: 6..30 rounds of clone-and-drop (or add-and-remove) in a
+    // row retire enough internal objects to open a reclamation epoch and raise the epoch signal,
+    // a state in which senders and receivers take different paths (round-5 seed C05-5)
+    let round = if a.add_stream {
+        prop_oneof![
+            (s(), any::<bool>()).prop_map(|(rx, unsub)| Op::WithCloneRx { rx, unsub }),
+            s().prop_map(|tx| Op::WithCloneTx { tx, sends: 0 }),
+            (s(), any::<bool>()).prop_map(|(rx, unsub)| Op::WithNewStream { rx, unsub }),
+        ]
+        .boxed()
+    } else {
+        prop_oneof![
+            (s(), any::<bool>()).prop_map(|(rx, unsub)| Op::WithCloneRx { rx, unsub }),
+            s().prop_map(|tx| Op::WithCloneTx { tx, sends: 0 }),
+        ]
+        .boxed()
+    };
+    v.push((1, (6u32..=30, round).prop_map(|(times, r)| Op::Repeat { times, body: vec![r], sample_after: vec![] }).boxed()));
     if a.futures_ops {
         v.push((8, (s(), any::<bool>()).prop_map(|(tx, by_ref)| Op::StartSend { tx, by_ref }).boxed()));
         v.push((8, (s(), any::<bool>()).prop_map(|(rx, by_ref)| Op::Poll { rx, by_ref }).boxed()));
@@ -869,10 +887,13 @@ pub fn removal_scenario(opts: ExecOpts) -> BoxedStrategy<Scenario> {
         // a second slow stream with one handle, removed by a thread of its own at the same time
         // (two removals colliding on the stream list), and add_stream+drop rounds performed by
         // the third stream's thread while the removals happen
-        (any::<bool>(), 0u8..3, any::<bool>(), prop_oneof![2 => Just(0u8), 1 => Just(1u8), 1 => Just(2u8)]),
+        // (last element) a leaving handle may first be converted to a single-consumer receiver,
+        // which has a Drop / unsubscribe of its own (round-5 seed C11-5); the conversion is refused,
+        // and the handle kept as it is, while its stream has other handles
+        (any::<bool>(), 0u8..3, any::<bool>(), prop_oneof![2 => Just(0u8), 1 => Just(1u8), 1 => Just(2u8)], vec(0u8..3, 4)),
         schedule(500),
     )
-        .prop_map(move |(q, slow_handles, removers, unsub, pre, producers, third, sink, hows, (second, pre2, unsub2, side_adds), sched)| {
+        .prop_map(move |(q, slow_handles, removers, unsub, pre, producers, third, sink, hows, (second, pre2, unsub2, side_adds, conv), sched)| {
             let bcast = q.flavour == Flavour::Broadcast;
             let second = second && bcast;
             let mut main = Vec::new();
@@ -939,6 +960,9 @@ pub fn removal_scenario(opts: ExecOpts) -> BoxedStrategy<Scenario> {
                     ops.push(Op::TryRecv { rx: 0 });
                 }
                 for k in 0..takeh {
+                    if conv[(r + k) % 3] == 0 {
+                        ops.push(Op::IntoSingle { rx: 0 });
+                    }
                     if unsub[(r + k) % 3] {
                         ops.push(Op::UnsubRx { rx: 0 });
                     } else {
@@ -954,6 +978,9 @@ pub fn removal_scenario(opts: ExecOpts) -> BoxedStrategy<Scenario> {
                 let mut ops = Vec::new();
                 for _ in 0..pre2 {
                     ops.push(Op::TryRecv { rx: 0 });
+                }
+                if conv[3] == 0 {
+                    ops.push(Op::IntoSingle { rx: 0 });
                 }
                 ops.push(if unsub2 { Op::UnsubRx { rx: 0 } } else { Op::DropRx { rx: 0 } });
                 progs.push(Prog { ops, ret: false });
